@@ -331,6 +331,13 @@ RESTART:
 		return tmconsensus.HandleProposedHeaderBadSignature
 	}
 
+	// The proposed header must extend the block that we know was committed at the previous height.
+	// The kernel reported that hash with the check response;
+	// a previous commit proof for any other hash is irrelevant to our chain.
+	if ph.Header.Height > m.initialHeight && !bytes.Equal(checkResp.PrevBlockHash, ph.Header.PrevBlockHash) {
+		return tmconsensus.HandleProposedHeaderBadBlockHash
+	}
+
 	// Now, make sure that the proposed header's PrevCommitProof matches
 	// what we think the previous commit is supposed to be.
 	// The easiest thing to check first is the validator hash.
